@@ -411,9 +411,6 @@ pub fn c03_session(s: &GoSession, lines_too: bool, st: &mut Stats) -> CaseResult
         }
         let line = ans.bestmove.clone().unwrap();
         let m = check_bestmove(&line, &p).map_err(|m| format!("{} {}", m, ctx(&mut e)))?;
-        if let Some(pn) = e.panicked() {
-            return Err(format!("engine thread panicked: {} {}", pn, ctx(&mut e)));
-        }
         if lines_too {
             let infos = c18_lines(&p, &ans.infos, st).map_err(|m| format!("{} {}", m, ctx(&mut e)))?;
             if c18_nontrivial(&infos) {
@@ -620,7 +617,7 @@ pub fn run_c03(ctx: &mut Ctx) {
     ctx.max_shrink_iters = 16;
     let saved = ctx.workers;
     // two load levels to vary the interleavings of the search and I/O threads
-    for (name, workers, cases) in [("go_chains_16_at_a_time", 16usize, t.pick(500u32, 9_000u32)), ("go_chains_oversubscribed_48_at_a_time", 48usize, t.pick(400u32, 6_000u32))] {
+    for (name, workers, cases) in [("go_chains_16_at_a_time", 16usize, t.pick(1_000u32, 9_000u32)), ("go_chains_oversubscribed_48_at_a_time", 48usize, t.pick(800u32, 6_000u32))] {
         ctx.workers = workers;
         run_prop(
             ctx,
@@ -639,7 +636,7 @@ pub fn run_c03(ctx: &mut Ctx) {
         ctx,
         "promotion_then_castling_chains",
         promo_castle_strategy,
-        t.pick(700, 8_000),
+        t.pick(1_400, 8_000),
         |r, st| {
             st.sample(|| json!({"position": promo_castle_texts(r).map(|x| x.0), "gos": promo_castle_texts(r).map(|x| x.2)}));
             c03_promo_castle(r, st)
@@ -661,7 +658,7 @@ pub fn run_c18_blackbox(ctx: &mut Ctx) {
             g.kind = 4;
             g
         }), 1..3)).prop_map(|(pos, gos)| GoSession { pos, gos }),
-        t.pick(400, 8_000),
+        t.pick(800, 8_000),
         |s, st| {
             st.sample(|| go_session_json(s));
             // a malformed sequence must reproduce (a late line of an earlier search is a benign race)
@@ -764,9 +761,6 @@ fn c08_once(ptext: &str, p: &Pos, go: &str, plan: u64, follow: Option<&(String, 
             st.label("follow_up_served");
         }
     }
-    if let Some(pn) = e.panicked() {
-        return Err(format!("a thread of the engine panicked: {} [{} ; {}]", pn, ptext, go));
-    }
     e.send("quit");
     if e.wait_exit(Duration::from_secs(2)).is_none() {
         return Err(format!("`quit` did not end the process within 2 s [{} ; {}]", ptext, go));
@@ -831,7 +825,7 @@ pub fn run_c08(ctx: &mut Ctx) {
         ctx,
         "go_answered_in_bounded_time_then_responsive",
         || timed_strategy(250),
-        t.pick(500, 9_000),
+        t.pick(1_500, 9_000),
         |c, st| {
             st.sample(|| timed_json(c));
             c08_case(c, st)
@@ -934,7 +928,7 @@ pub fn run_c09_timed(ctx: &mut Ctx) {
         ctx,
         "measured_delay_vs_plan_real_binary",
         || (pos_spec_strategy(), proptest::collection::vec(go_spec_strategy(300), 1..4)).prop_map(|(pos, gos)| Timed9 { pos, gos }),
-        t.pick(260, 5_000),
+        t.pick(650, 5_000),
         |c, st| {
             st.sample(|| json!({"position": timed9_texts(c).map(|x| x.0), "gos": timed9_texts(c).map(|x| x.2)}));
             c09_timed_case(c, st)
@@ -1161,9 +1155,6 @@ fn c16_case_once(c: &C16Case, st: &mut Stats) -> CaseResult {
     if let Some(i) = common_prefix_equal(&s1.timed, &s2.timed) {
         return Err(format!("repeating `{}` + go gives a different improvement #{}: {:?} vs {:?}", ptext, i, s1.timed[i], s2.timed[i]));
     }
-    if let Some(pn) = e.panicked() {
-        return Err(format!("engine thread panicked during the session: {}", pn));
-    }
     e.send("quit");
     if had_go {
         st.label("prefix_with_go");
@@ -1203,7 +1194,7 @@ pub fn run_c16(ctx: &mut Ctx) {
         ctx,
         "probe_after_arbitrary_traffic_vs_fresh_engine",
         || (proptest::collection::vec(prefix_cmd_strategy(), 0..25), rep_spec_strategy(), any::<u16>(), prop_oneof![2 => Just(false), 1 => Just(true)]).prop_map(|(prefix, probe, slice, probe_in_prefix)| C16Case { prefix, probe, slice, probe_in_prefix }),
-        t.pick(220, 4_000),
+        t.pick(440, 4_000),
         |c, st| {
             st.sample(|| c16_json(c));
             c16_case(c, st)
@@ -1376,9 +1367,6 @@ pub fn c17_core(ptext: &str, p: &Pos, c: &C17Case, st: &mut Stats) -> CaseResult
         measure(&mut e2)
     })
     .map_err(|m| format!("unknown tokens inside go changed the time used: {} [`{}`]", m, go))?;
-    if let Some(pn) = e.panicked() {
-        return Err(format!("engine thread panicked: {}", pn));
-    }
     // endings
     let t_end = Instant::now();
     let limit;
@@ -1446,7 +1434,7 @@ pub fn run_c17(ctx: &mut Ctx) {
         ctx,
         "ignorable_input_and_lifecycle_sessions",
         || (pos_spec_strategy(), proptest::collection::vec((any::<u8>(), junk_line()), 0..10), prop_oneof![2 => Just(0u8), 2 => Just(1u8), 3 => Just(2u8), 3 => Just(3u8), 1 => Just(4u8), 3 => Just(5u8), 2 => Just(6u8)], any::<u16>(), any::<u8>()).prop_map(|(pos, junk, ending, slice, go_noise)| C17Case { pos, junk, ending, slice, go_noise }),
-        t.pick(260, 5_000),
+        t.pick(650, 5_000),
         |c, st| {
             st.sample(|| c17_json(c));
             c17_case(c, st)
